@@ -70,6 +70,7 @@ type spec struct {
 	piecewise        bool // the request body arrives in pieces, the first ending exactly at the limit
 	nilErrHandler    bool // buffer.ErrorHandler(nil) is among the options
 	expect100        bool // the request carries Expect: 100-continue
+	hijackAfter      bool // the handler hijacks the connection after writing its output
 	copyMode         bool // the handler streams its body with io.Copy from a plain reader
 	abort            bool // the handler panics (http.ErrAbortHandler) after writing
 }
@@ -179,11 +180,12 @@ func genSpec(t *rapid.T) *spec {
 		}
 	}
 	s.abort = s.retry == "" && rapid.IntRange(0, 5).Draw(t, "abort") == 0
+	s.hijackAfter = s.retry == "" && !s.abort && rapid.IntRange(0, 5).Draw(t, "hijackAfterWriting") == 0
 	return s
 }
 
 func (s *spec) String() string {
-	return fmt.Sprintf("%s reqBody=%d chunked=%v memReq=%d maxReq=%d | memResp=%d maxResp=%d status=%d writes=%v retry=%q failFirst=%d explicitCL=%v copyMode=%v abort=%v h2style=%v verbose=%v formCT=%v upgradeHdr=%v piecewise=%v nilErrHandler=%v expect100=%v", s.method, s.reqBody, s.chunked, s.memReq, s.maxReq, s.memResp, s.maxResp, s.status, s.writes, s.retry, s.failFirst, s.explicitCL, s.copyMode, s.abort, s.h2style, s.verbose, s.formCT, s.upgradeHdr, s.piecewise, s.nilErrHandler, s.expect100)
+	return fmt.Sprintf("%s reqBody=%d chunked=%v memReq=%d maxReq=%d | memResp=%d maxResp=%d status=%d writes=%v retry=%q failFirst=%d explicitCL=%v copyMode=%v abort=%v h2style=%v verbose=%v formCT=%v upgradeHdr=%v piecewise=%v nilErrHandler=%v expect100=%v hijackAfter=%v", s.method, s.reqBody, s.chunked, s.memReq, s.maxReq, s.memResp, s.maxResp, s.status, s.writes, s.retry, s.failFirst, s.explicitCL, s.copyMode, s.abort, s.h2style, s.verbose, s.formCT, s.upgradeHdr, s.piecewise, s.nilErrHandler, s.expect100, s.hijackAfter)
 }
 
 // formatLogger formats its arguments like a real logger.
@@ -239,6 +241,7 @@ func TestC15_LimitsAndTempFiles(t *testing.T) {
 			total += w
 		}
 		invocations := 0
+		hijackedOK := false
 		sawSpill := false
 		notSpilled := ""
 		bodyOK := true
@@ -301,6 +304,14 @@ func TestC15_LimitsAndTempFiles(t *testing.T) {
 			}
 			if s.abort {
 				panic(http.ErrAbortHandler)
+			}
+			if s.hijackAfter { // the handler takes the connection over after having produced output
+				if hj, ok := w.(http.Hijacker); ok {
+					if conn, _, err := hj.Hijack(); err == nil {
+						hijackedOK = true
+						conn.Close()
+					}
+				}
 			}
 		})
 		opts := []buffer.Option{buffer.MemRequestBodyBytes(s.memReq), buffer.MaxRequestBodyBytes(s.maxReq), buffer.MemResponseBodyBytes(s.memResp), buffer.MaxResponseBodyBytes(s.maxResp)}
@@ -389,6 +400,8 @@ func TestC15_LimitsAndTempFiles(t *testing.T) {
 			}
 		}
 		switch {
+		case hijackedOK:
+			// the handler took the connection over: only the temp-file clause applies
 		case aborted:
 			// the exchange completed with an error (aborted handler): only the temp-file clause applies
 		case reqOver:
